@@ -195,6 +195,18 @@ Definition barging : list action :=
   [EnqLocked 1 0 0 1500 0; Park 1 0; EnqLocked 2 0 1 1500 1; Park 2 1;
    EnqLocked 3 0 1000 1500 1000; Park 3 1000; Tick 1000; Ttl 2 1501; Return 2 1501].
 
+(* [barging] is written in the design's syntactic form "every EnqLocked is
+   followed by its Park" ([parks_immediately]); its [Park 1 0] and [Park 3 1000]
+   are NOT enabled (requests 1 and 3 got a slot at once and never reach the
+   select): [run] / [trace] skip them as no-ops, the strict replay [run_obs] of
+   the suites would answer the sentinel.  The same schedule without the two
+   no-ops is a schedule of enabled actions only, i.e. one [run_case] accepts
+   with the observations the real queue gives (harness: the forced schedule of
+   F-C10b); it is the refuting run proper. *)
+Definition barging_enabled : list action :=
+  [EnqLocked 1 0 0 1500 0; EnqLocked 2 0 1 1500 1; Park 2 1;
+   EnqLocked 3 0 1000 1500 1000; Tick 1000; Ttl 2 1501; Return 2 1501].
+
 Theorem C10_full_refuted : ~ C10_full.
 Proof.
   intro H. destruct (H cfg1 0 lost_handoff) as [S _]; [reflexivity|reflexivity|].
@@ -219,7 +231,23 @@ Theorem C10_full_refuted_barging :
   forallb okP (trace cfg1 (init cfg1 0) barging) = true /\
   strand cfg1 (trace cfg1 (init cfg1 0) barging) = true /\
   map result_of (reqs (run cfg1 (init cfg1 0) barging)) =
-    [(1, Some (true, 0)); (2, Some (false, 1501)); (3, Some (true, 1000))].
+    [(1, Some (true, 0)); (2, Some (false, 1501)); (3, Some (true, 1000))] /\
+  (* [barging] itself contains two skipped no-ops ... *)
+  enabled cfg1 (init cfg1 0) barging = false /\
+  (* ... the schedule without them is enabled throughout, is the same run, still
+     has no waiter between Unlock and select at a pass, loses no hand-off, and
+     strands request 2; the strict replay of the suites accepts it *)
+  enabled cfg1 (init cfg1 0) barging_enabled = true /\
+  monotone 0 barging_enabled = true /\
+  run cfg1 (init cfg1 0) barging_enabled = run cfg1 (init cfg1 0) barging /\
+  forallb okP (trace cfg1 (init cfg1 0) barging_enabled) = true /\
+  forallb (no_lost_handoff cfg1) (trace cfg1 (init cfg1 0) barging_enabled) = true /\
+  map (no_barging cfg1) (trace cfg1 (init cfg1 0) barging_enabled) =
+    [true; true; true; false; true; true; true] /\
+  strand cfg1 (trace cfg1 (init cfg1 0) barging_enabled) = true /\
+  run_case ((1, 1000, 10), 0, barging_enabled,
+            [Some 0; Some 1; Some 1; Some 1; Some 1; Some 1; Some 0],
+            [(1, Some (true, 0)); (2, Some (false, 1501)); (3, Some (true, 1000))]) = None.
 Proof. vm_compute. repeat split. Qed.
 Print Assumptions C10_full_refuted_barging.
 
@@ -890,17 +918,50 @@ Theorem C10_prun_obs_is_prun : forall tv v s acts,
 Proof. intros tv v s acts. split; [apply prun_obs_sentinel|apply prun_obs_enabled]. Qed.
 Print Assumptions C10_prun_obs_is_prun.
 
+(* What suite plugin evaluates is [Scrape.run_mplugin] (histories with metrics
+   reads [MCScrape], see "Metrics reads" below; [Plugin.run_plugin], the replay
+   without them, is no longer evaluated by any suite).  An accepted case
+   (observed counts are never negative) is a plugin-level schedule [macts] of
+   which every action is enabled at its turn; without its metrics reads
+   ([strip]) it is the expansion of the case's actions without theirs
+   ([cstrip]); the observed counts are those of the strict replay, which at the
+   actions of Plugin.v are the counts along [prun]; the final state of the
+   strict replay, and of [mrun], is [prun] on the stripped schedule — the state
+   the plugin theorems speak about — and the verdicts [prun] gives are the
+   observed ones. *)
 Theorem C10_accepted_plugin_case_is_a_run : forall tbl cacts counts results,
   Forall obs_ok counts ->
-  run_plugin (tbl, cacts, counts, results) = None ->
-  exists acts,
-    expand_all tbl cacts = Some acts /\
-    penabled code_ttl code_variant pinit acts = true /\
-    eq_zs (pcounts_of code_ttl code_variant pinit acts) counts = true /\
-    fst (prun_obs code_ttl code_variant pinit acts) = pcounts_of code_ttl code_variant pinit acts /\
-    snd (prun_obs code_ttl code_variant pinit acts) = prun code_ttl code_variant pinit acts.
-Proof. exact run_plugin_accepts. Qed.
+  run_mplugin (tbl, cacts, counts, results) = None ->
+  exists macts,
+    mexpand_all tbl cacts = Some macts /\
+    expand_all tbl (cstrip cacts) = Some (strip macts) /\
+    penabled code_ttl code_variant pinit (strip macts) = true /\
+    eq_zs (fst (mrun_obs code_ttl code_scrape code_variant pinit macts)) counts = true /\
+    drop_scrapes macts (fst (mrun_obs code_ttl code_scrape code_variant pinit macts)) =
+      pcounts_of code_ttl code_variant pinit (strip macts) /\
+    snd (mrun_obs code_ttl code_scrape code_variant pinit macts) =
+      prun code_ttl code_variant pinit (strip macts) /\
+    mrun code_ttl code_scrape code_variant pinit macts =
+      prun code_ttl code_variant pinit (strip macts) /\
+    eq_press (cverdicts tbl (prun code_ttl code_variant pinit (strip macts)) results)
+             (map snd results) = true.
+Proof. exact run_mplugin_accepts. Qed.
 Print Assumptions C10_accepted_plugin_case_is_a_run.
+
+(* satisfiable: a case with two metrics reads (one while request 2 is between
+   Unlock and select) is accepted; a case whose last action is not enabled
+   (request 2 parks twice) is not *)
+Example C10_accepted_plugin_case_nontrivial :
+  let tbl := [((1, 1, 5), {| p_ttl_e := 240; p_qsize := 10; p_status := 429; p_prz := None |})] in
+  let hist := [MC (CLookup 0 1 10); MC (CEnq 0 1 [] 10 10); MCScrape 11;
+               MC (CLookup 0 2 12); MC (CEnq 0 2 [] 12 12); MCScrape 12; MC (CR 0 2 RPark 12)] in
+  let res := [(Some 0%nat, 1, Some (VNoOp, 10)); (Some 0%nat, 2, None)] in
+  run_mplugin (tbl, hist, [Some 0; Some 0; Some 0; Some 0; Some 1; Some 1; Some 1], res) = None /\
+  Forall obs_ok [Some 0; Some 0; Some 0; Some 0; Some 1; Some 1; Some 1] /\
+  run_mplugin (tbl, hist ++ [MC (CR 0 2 RPark 13)],
+               [Some 0; Some 0; Some 0; Some 0; Some 1; Some 1; Some 1; None], res) =
+    Some ([0; 0; 0; 0; 1; 1; 1; -1], [Some (VNoOp, 10); None]).
+Proof. vm_compute. repeat split; repeat constructor; discriminate. Qed.
 
 Example C10_run_obs_nontrivial :
   let c := {| quota := 1; wsize := 1000; qsize := 2 |} in
@@ -1118,6 +1179,29 @@ Theorem C10_run_ticks_is_trace : forall c s acts,
 Proof. intros c s acts. apply run_ticks_enabled. Qed.
 Print Assumptions C10_run_ticks_is_trace.
 
+(* an accepted case of suite timer (deadlines as observed are never negative:
+   mock-clock instants) is a schedule of enabled actions, and the observed
+   deadlines are [next_tick] after the passes of [trace] *)
+Theorem C10_accepted_timer_case_is_a_trace : forall q w n t0 acts nexts,
+  Forall obs_ok nexts ->
+  run_timer ((q, w, n), t0, acts, nexts) = None ->
+  let c := {| quota := q; wsize := w; qsize := n |} in
+  enabled c (init c t0) acts = true /\
+  eq_zs (map (fun tr : trans => next_tick (snd tr)) (filter is_tick (trace c (init c t0) acts)))
+        nexts = true.
+Proof. exact run_timer_accepts. Qed.
+Print Assumptions C10_accepted_timer_case_is_a_trace.
+
+(* an accepted case with two passes (the second deadline unobserved), and a
+   schedule with a disabled action, which no observation makes acceptable *)
+Example C10_accepted_timer_case_nontrivial :
+  run_timer ((1, 1000, 2), 0,
+             [EnqLocked 1 0 0 500 0; EnqLocked 2 1 1 1500 1; Park 2 1; EnqLocked 3 0 2 1500 2; Park 3 2;
+              EnqLocked 4 0 3 1500 3; Tick 1000; Return 3 1000; Ttl 2 1501; Return 2 1501; Tick 2000],
+             [Some 2000; None]) = None /\
+  run_timer ((1, 1000, 2), 0, [EnqLocked 1 0 0 500 0; Park 1 0; Tick 1000], [None]) = Some [-1].
+Proof. vm_compute. split; reflexivity. Qed.
+
 (* Clause "its time-to-live really elapsed while no slot was available for it".
    Outside the two findings, with a monotone clock, and when no TTL timer is
    served on a stale window (a TTL deadline at or after a boundary is handled
@@ -1249,7 +1333,10 @@ Print Assumptions C10_mrun_obs_is_prun_obs.
 Definition scrape_forgets_window : list maction :=
   [MA (PK key1 (KLookup 1 10)); MA (PK key1 (KEnq 1 par1 [] 10 10));
    MScrape 11;
-   MA (PK key1 (KLookup 2 12)); MA (PK key1 (KEnq 2 par1 [] 12 12)); MA (PK key1 (KR 2 RPark 12))].
+   MA (PK key1 (KLookup 2 12)); MA (PK key1 (KEnq 2 par1 [] 12 12))].
+(* every action of it is enabled under BOTH variants (no sentinel in
+   C10_metrics_read_outcomes below): under ReadOnly request 2 is queued (and
+   could park next), under DropsIdle it got a slot and returns *)
 
 Theorem C10_plugin_release_bound_drops_idle_refuted :
   ~ C10_plugin_release_bound_with_metrics_for code_ttl DropsIdle.
@@ -1271,8 +1358,14 @@ Example C10_metrics_read_outcomes :
                  MA (PK key1 (KTick 0%nat (5 * second))); MA (PK key1 (KR 2 RReturn (5 * second)))] in
   res ReadOnly scrape_forgets_window = (1%nat, 1, Some (VNoOp, 10), None) /\
   res DropsIdle scrape_forgets_window = (2%nat, 2, Some (VNoOp, 10), Some (VNoOp, 12)) /\
-  fst (mrun_obs code_ttl ReadOnly Atomic pinit scrape_forgets_window) = [0; 0; 0; 0; 1; 1] /\
-  fst (mrun_obs code_ttl DropsIdle Atomic pinit scrape_forgets_window) = [0; 0; 0; 0; 0; -1] /\
+  fst (mrun_obs code_ttl ReadOnly Atomic pinit scrape_forgets_window) = [0; 0; 0; 0; 1] /\
+  fst (mrun_obs code_ttl DropsIdle Atomic pinit scrape_forgets_window) = [0; 0; 0; 0; 0] /\
+  (* what distinguishes the variants next: request 2 parks under ReadOnly; under
+     DropsIdle a Park is not enabled, it already has its slot *)
+  fst (mrun_obs code_ttl ReadOnly Atomic pinit (scrape_forgets_window ++ [MA (PK key1 (KR 2 RPark 12))]))
+    = [0; 0; 0; 0; 1; 1] /\
+  fst (mrun_obs code_ttl DropsIdle Atomic pinit (scrape_forgets_window ++ [MA (PK key1 (KR 2 RPark 12))]))
+    = [0; 0; 0; 0; 0; -1] /\
   res ReadOnly parked = res DropsIdle parked /\
   res ReadOnly parked = (1%nat, 1, Some (VNoOp, 10), Some (VNoOp, 5 * second)) /\
   fst (mrun_obs code_ttl ReadOnly Atomic pinit parked) = [0; 0; 0; 1; 1; 1; 1; 0].
